@@ -721,6 +721,12 @@ func propC02(t *rapid.T, e *Env) {
 		e.Fail(t, "C02 read probe: making attribute %s known changed %d fields (%v), want exactly one", pr.path, len(nfd), nfd)
 	}
 	e.Res.Class("probe:" + pr.ab.A.Kind + "/" + cardName(pr.ab.A))
+	if len(pr.ab.A.Chain) > 1 {
+		e.Res.Class("probe_embedded")
+	}
+	if strings.Count(pr.path, ".") > 1 {
+		e.Res.Class("probe_nested")
+	}
 	if pr.nontriv {
 		e.Res.Nontriv(fmt.Sprintf("%s/%s/%d", rc.M.Name, pr.path, i))
 	}
